@@ -3,6 +3,7 @@ package prop
 
 import (
 	"verif/internal/core"
+	"verif/prop/c06"
 	"verif/prop/c12"
 	"verif/prop/c16"
 	"verif/prop/c18"
@@ -17,6 +18,7 @@ type Prop struct {
 
 // All maps property id to its check.
 var All = map[string]Prop{
+	"C06": {Level: "model_checking", Check: c06.Check, Replay: c06.Replay},
 	"C12": {Level: "model_checking", Check: c12.Check, Replay: c12.Replay},
 	"C16": {Level: "model_checking", Check: c16.Check, Replay: c16.Replay},
 	"C18": {Level: "model_checking", Check: c18.Check, Replay: c18.Replay},
